@@ -764,6 +764,18 @@ func c18InvalidPicture(r *fw.Rec, rr *prng.R) {
 	bad := []string{"0.0.0", "0%%", "0%‰", "0‰‰", "abc", "", ";", "0;0;0", "0,.0", "0.,0", "0,,0", "0,", "0#", "#0#", "0.#0", "0.0#0", "0e0e0", "0%e0", "0e0%", "0 0", "#x#", "0.0x0", "0e#", "‰0e00", ";0", "0;"}
 	pic := bad[rr.Intn(len(bad))]
 	x := c18Doubles(rr)
+	if !strings.Contains(pic, ";") && pic != "" && rr.Intn(3) == 0 {
+		// one of two sub-pictures is invalid, whichever the number's sign selects
+		good := rr.Pick("0", "0.0", "#,##0.00", "0%", "0e0", "(0)")
+		if rr.Bool() {
+			pic = good + ";" + pic
+		} else {
+			pic = pic + ";" + good
+		}
+		if rr.Bool() {
+			x = math.Abs(x)
+		}
+	}
 	o, _ := c18Eval(r, "$formatNumber(x, pic)", O{"x": x, "pic": pic}, "formatNumber-invalid-picture")
 	if o.Kind != "error" {
 		r.Violation("invalid-picture-accepted", fmt.Sprintf("picture %q is outside the decimal-format grammar but $formatNumber(%v) returned %s", pic, x, o.String()), nil)
@@ -777,7 +789,7 @@ func init() {
 	fw.Register(&fw.Prop{
 		ID: "C18", Title: "Number conversion, rounding and formatting are exact and always terminate",
 		Rule: "cases: (a) exhaustive: $number of every string of <=4 (quick) / <=6 (thorough) symbols over {0 1 9 . - + e E space}; (b) PRNG-generated doubles (integers, decimal fractions with 0..6 digits incl. exact ties and their float neighbours, powers of ten 1e-12..1e21, 0, -0, random mantissas) for $string/$number round trips (shortest-digits check), $round with precisions -6..12 and absent (under |x|*10^p < 2^53), $floor/$ceil/$abs/$sqrt/$power, $formatBase with bases 0..40 incl. halves and absent; " +
-			"(c) $formatNumber with pictures generated from the decimal-format grammar (optional/mandatory digits, regular/single/irregular integer grouping, fraction grouping, percent, per-mille, exponent, prefix/suffix text, negative sub-picture, custom decimal/grouping/minus options) and with pictures from 28 unambiguous invalid classes. " +
+			"(c) $formatNumber with pictures generated from the decimal-format grammar (optional/mandatory digits, regular/single/irregular integer grouping, fraction grouping, percent, per-mille, exponent, prefix/suffix text, negative sub-picture, custom decimal/grouping/minus options) and with pictures from 28 unambiguous invalid classes, alone and as one of two sub-pictures (for numbers of either sign). " +
 			"Oracles: strconv and math/big: exact half-even rounding of the shortest decimal; big.Int radix text; the formatted numeral is parsed back (affixes, separator positions, mandatory digits checked) and must equal x scaled and rounded to the picture's precision within half a unit of the last digit. Non-termination is judged by the CPU watchdog. non-trivial = every case; distinct by (program, input)",
 		Assumptions: []string{"$formatNumber tie rule and whether x means the binary value or its shortest decimal are not fixed by the statement: both are accepted within half a unit of the last digit", "$number accepts leading zeros (the stated grammar)"},
 		Plan: func(tier string, seed uint64) *fw.Plan {
